@@ -3,6 +3,7 @@ package storage
 import (
 	"database/sql"
 	"fmt"
+	"github.com/lab5e/lospan/pkg/verifgate"
 	"strings"
 
 	"github.com/lab5e/lospan/pkg/lg"
@@ -39,6 +40,9 @@ func (k *keyStatements) prepare(db *sql.DB) error {
 
 // AllocateKeys allocates a new set of keys from the backend store
 func (s *Storage) AllocateKeys(identifier string, interval uint64, initial uint64) (chan uint64, error) {
+	if err := verifgate.Gate("AllocateKeys:entry", identifier); err != nil {
+		return nil, err
+	}
 	s.mutex.Lock()
 	defer s.mutex.Unlock()
 	tx, err := s.db.Begin()
@@ -77,12 +81,17 @@ func (s *Storage) AllocateKeys(identifier string, interval uint64, initial uint6
 		}
 	}
 
+	if gerr := verifgate.Gate("AllocateKeys:before-commit", identifier); gerr != nil {
+		tx.Rollback()
+		return nil, gerr
+	}
 	err = tx.Commit()
 	if err != nil {
 		lg.Error("Unable to commit sequence with identifier %s (interval: %d, initial: %d): %v",
 			identifier, interval, initial, err)
 		return nil, err
 	}
+	verifgate.Gate("AllocateKeys:after-commit", identifier)
 	start = uint64(counter)
 
 	ret := make(chan uint64)
